@@ -91,6 +91,10 @@ class C16(Prop):
                 c['cfg']['signal_start_shift'] = rng.choice([3, 14, 40])       # signals built with a later start_dt of their own
                 c['stream'] += ':late-signal-start'
             c['session'] = True
+            if c['cfg']['universe'][0] == 'dynamic' and rng.random() < 0.5:
+                c['mode'] = 'twice'
+                c['share_universe'] = True
+                c['stream'] += ':twice-on-one-universe-object'
             out.append(c)
         # sessions in which some assets have no price yet on the first days (their files begin later): every priced asset is
         # still observed once per close, whatever the others have
@@ -111,9 +115,19 @@ class C16(Prop):
     def judge_session(self, c, o, mod):
         j = Judgement()
         j.key = hash(repr(c['cfg']))
+        second = None
+        if 'first' in o:
+            # the same session twice in one process, the second one on the universe OBJECT of the first
+            o, second = o['first'], o['second']
         sl.compare_session(c, o, mod, j)
         if o['init'][0] != 'ok':
             return j
+        self.observations(c, o, j, '')
+        if second is not None and second['init'][0] == 'ok':
+            self.observations(c, second, j, 'second session on the same universe object: ')
+        return j
+
+    def observations(self, c, o, j, label):
         cfg = c['cfg']
         closes = [t for t, k in sl.event_times(cfg['start'], cfg['end']) if k == 'market_close']
         cut = None
@@ -131,15 +145,14 @@ class C16(Prop):
             else:
                 want = [[t, rows[t].get(a)] for t in closes if e <= max(cfg['start'], t)]
             if [x[0] for x in got] != [x[0] for x in want]:
-                j.failures.append('signal observations of %s at %s..., expected one per business-day close from its entry: %s...' % (
+                j.failures.append(label + 'signal observations of %s at %s..., expected one per business-day close from its entry: %s...' % (
                     a, [x[0] for x in got][:4], [x[0] for x in want][:4]))
             elif any(x[1] != y[1] for x, y in zip(got, want)):
-                j.failures.append('signal observations of %s are not that day\'s close prices' % a)
+                j.failures.append(label + 'signal observations of %s are not that day\'s close prices' % a)
         if o['warmup'] is not None and o['error'] is None and o['warmup'] != len(closes):
-            j.failures.append('warmup counter %s after %d market closes' % (o['warmup'], len(closes)))
+            j.failures.append(label + 'warmup counter %s after %d market closes' % (o['warmup'], len(closes)))
         if o['signal_obs']:
             j.nontrivial = True
-        return j
 
     def judge(self, c, impl, mod):
         if c.get('session'):
